@@ -746,6 +746,11 @@ func (c *Ctx) errCheckedTuple(f *ssa.Function, call *ssa.Call, idx int) bool {
 								}
 							}
 						}
+						// ... or the error travels through locals first: every path from the error edge ends in a
+						// return whose error result is known to be non-nil
+						if c.rejects(iff.Block(), 0, nil, nil) {
+							return true
+						}
 					}
 				}
 			}
@@ -893,6 +898,31 @@ func c10Dedup(c *Ctx, d *Dispatcher) {
 			filterOK = true
 		}
 	})
+	if !filterOK {
+		// by cases on the prefix test: with "starts with `$`" no append is reachable, without it one is
+		var tests []*ssa.Call
+		instrs(nl, func(b *ssa.BasicBlock, i int, in ssa.Instruction) {
+			if call, ok := in.(*ssa.Call); ok {
+				if cal := calleeOf(call); cal != nil && cal.String() == "strings.HasPrefix" {
+					if k, isK := call.Call.Args[1].(*ssa.Const); isK && k.Value != nil && constant.StringVal(k.Value) == "$" {
+						tests = append(tests, call)
+					}
+				}
+			}
+		})
+		if len(tests) == 1 {
+			appendReach := func(v bool) bool {
+				r := c.foldWith(nl, 0, pinValue(tests[0], constant.MakeBool(v)))
+				for _, call := range r.ReachableCalls() {
+					if isBuiltinCall(call.(ssa.Instruction), "append") && instrDominates(tests[0], call.(ssa.Instruction)) {
+						return true
+					}
+				}
+				return false
+			}
+			filterOK = !appendReach(true) && appendReach(false)
+		}
+	}
 	c.R.Check(rule, "non-local-source", c.P.Pos(nl.Pos()), srcOK, "the non-local variant must filter the result of the full analysis")
 	c.R.Check(rule, "dollar-filter", c.P.Pos(nl.Pos()), filterOK, "the non-local variant must keep an entry exactly when it does not start with `$`")
 	c.R.Floor(rule, 5)
@@ -1322,6 +1352,50 @@ func c10ByReference(c *Ctx, d *Dispatcher) {
 		}
 		n++
 		c.R.Check(rule, c.P.FuncKey(f), c.P.Pos(f.Pos()), bad == "", "the field collector must be shared by reference among the visitors: "+bad+"; names appended below this point land in the copy and are lost (a name read only under this construct is not reported)")
+	}
+	c.R.Floor(rule, 5)
+}
+
+
+// byReference: no function reachable from the given roots receives a value of the named struct type itself (value
+// receiver, struct parameter) or loads a whole one through a pointer: the state lives in one object that everything
+// shares. A helper working on a copy loses what it stores (a runner copy that has no data map yet creates the map on
+// the copy: locals bound below it are gone when it returns).
+func (c *Ctx) byReference(rule string, nt *types.Named, what string, roots ...*ssa.Function) {
+	if nt == nil {
+		return
+	}
+	isT := func(t types.Type) bool {
+		n, ok := t.(*types.Named)
+		return ok && n.Obj() == nt.Obj()
+	}
+	rr := c.ReachFrom("byref:"+nt.Obj().Name(), roots...)
+	n := 0
+	for _, f := range rr.Order {
+		if len(f.Blocks) == 0 {
+			continue
+		}
+		touches := false
+		bad := ""
+		for _, p := range f.Params {
+			if isT(deref(p.Type())) {
+				touches = true
+			}
+			if isT(p.Type()) {
+				bad = "parameter `" + p.Name() + "` is a copy of the " + what
+			}
+		}
+		instrs(f, func(b *ssa.BasicBlock, i int, in ssa.Instruction) {
+			if u, ok := in.(*ssa.UnOp); ok && u.Op == token.MUL && isT(u.Type()) {
+				bad = "the " + what + " is copied at " + c.P.InstrPos(in)
+				touches = true
+			}
+		})
+		if !touches {
+			continue
+		}
+		n++
+		c.R.Check(rule, c.P.FuncKey(f), c.P.Pos(f.Pos()), bad == "", "the "+what+" must be shared by reference: "+bad+"; what is stored through the copy (a data map created on first use, a local bound there) is lost when the function returns")
 	}
 	c.R.Floor(rule, 5)
 }
